@@ -437,3 +437,46 @@ FAMILIES.append(
                   'repeated executions with and without a garbage collection before every activation'))
 QUICK_O_FAMILIES.append('phases')
 THOROUGH_O_FAMILIES.append('phases')
+
+
+def fam_huge(E, repeats=2, k=3):
+    """integer dates beyond 2**53 (e.g. nanosecond time stamps): delays in [0,300] on top of
+    start = 2**60, where neighbouring doubles are 256 apart.  A backend that orders dates by
+    anything but their exact value (float(date) is decided cell by cell by the solver, see
+    engine SNum.__float__) gives a different trace than the heap"""
+    start = 2 ** 60
+    d = [E.int('d%d' % i, 0, 300) for i in range(k)]
+
+    def run_once(waitqueue, note):
+        log = Log(note=note)
+
+        def sleeper(i):
+            async def run():
+                await (time + d[i])
+                log('s%d' % i, 'woke')
+                await (time + d[(i + 1) % k])
+                log('s%d' % i, 'again')
+            return run
+
+        out = simulate(*[sleeper(i)() for i in range(k)], start=start, log=log,
+                       probe=Probe(check_fifo=True), waitqueue=waitqueue)
+        return log.events, out
+
+    t1, out1 = run_once(HQWaitQueue, True)
+    t2, out2 = run_once(SDWaitQueue, False)
+    same_trace(E, t1, t2, 'same-trace-on-both-wait-queue-backends')
+    E.prove(out1.exc is None and out2.exc is None, 'run-ends-normally', (out1.exc, out2.exc))
+    E.reach_if(AND(GT(d[0], d[1]), LT(d[0] - d[1], 100)), 'distinct-dates-closer-than-a-double')
+    if E.concrete:
+        for r in range(repeats):
+            tr_, _ = run_once(HQWaitQueue, False)
+            same_trace(E, t1, tr_, 'same-trace-when-repeated-with-other-memory-layout')
+
+
+FAMILIES.append(
+    Family('huge_dates', fam_huge, quick=dict(), thorough=dict(k=4),
+           reach=['distinct-dates-closer-than-a-double'], nonrepro='inconclusive',
+           bounds='3 (thorough 4) sleepers x 2 delays in [0,300] from start = 2**60 (integer '
+                  'dates that doubles cannot tell apart), heap vs SortedDict backend'))
+QUICK_O_FAMILIES.append('huge_dates')
+THOROUGH_O_FAMILIES.append('huge_dates')
